@@ -44,6 +44,7 @@ CPU_SIGNATURE = "resource:cpu-bound-exceeded:in-process"
 RULE += " Added after the seeded rounds: " + 'Every case may carry `pre`: the same or other expressions evaluated first by fresh engines, so a result that depends on what the process evaluated before is found and reproducible from the replay file.'
 RULE += " Text-scan bombs (an opener followed by a long pump of one or two characters, never closed) are part of the sandboxed bomb grammar (40 quick / 990 thorough) and, with pumps up to 150, of the generated raw texts; an in-process evaluation that burns 40 s of CPU is reported through the runner's per-case CPU guard."
 RULE += ' Further bomb families, all sandboxed: every allow-listed callable (read from the live table) with huge / hugely negative / long arguments and as key= of max/min (320 quick, 1120 thorough); nested repetition (a million references to one big list) under comparisons and aggregates; function-valued arguments over long lists; results that are cheap to compute but cannot be rendered (ints beyond the int->str digit limit) through metabolize, digest_glucose and the agent; and about one generated case in 200 is drawn from a bomb grammar (big atoms x nested repetition x every allow-listed callable, also as key=, x comparisons / aggregates / arithmetic / round with huge digit counts). The function-table audit accepts a _bounded_<f> wrapper only if it refers to nothing but arithmetic helpers and limits and agrees with <f> on a grid of ordinary arguments (a ValueError refusal being its one liberty).'
+RULE += " Round 8: the operand a size guard inspects is also written negative, computed at run time, as a bool and on the other side of the operator ((-3) ** 10**9, (2 - 5) ** ..., (True * 10**10) * 'ab', factorial(-(-10**7)))."
 
 ALLOWED_NODES = (ast.Constant, ast.BinOp, ast.UnaryOp, ast.BoolOp, ast.Compare, ast.IfExp, ast.List, ast.Tuple, ast.Name, ast.Call)
 ALLOWED_BINOPS = (ast.Add, ast.Sub, ast.Mult, ast.Div, ast.FloorDiv, ast.Mod, ast.Pow)
@@ -198,7 +199,7 @@ def _bomb_expr(draw, depth=0):
     K = draw(st.sampled_from(_BK))
     k = draw(st.integers(0, 15 if depth < 3 else 5))
     if k == 0:
-        return draw(st.sampled_from(["0", "1", "7", "1.5", "-3", "'ab'", "True", "10**%s" % K, "9**%s" % K, "2**%s" % K, "7**35000",
+        return draw(st.sampled_from(["0", "1", "7", "1.5", "-3", "'ab'", "True", "10**%s" % K, "9**%s" % K, "2**%s" % K, "7**35000", "(-3)**10**%s" % K, "(2 - 9)**10**%s" % K,
                                      "factorial(20)", "factorial(4000)", "factorial(5000)", "factorial(5001)", "factorial(10**6)"]))
     if k == 1:
         return "10**%s" % K
@@ -258,6 +259,13 @@ def _bombs(tier):
            "(" * 180 + "1" + ")" * 180, "-" * 4000 + "1", "not " * 3000 + "1", "1" + "+1" * 4990, "int('9' * 4000) ** 3" if False else "2**(2**20)",
            "1+" * 600000 + "1", "[" * 200000, "9" * 3000000, "not " * 400000 + "1", "(1," * 100000,
            "lookup(9**9**9)", "lookup(factorial(10**7))", "pow(10.0, 300) ** 99", "exp(709) * 10", "round(9**9**9)", "abs(-(7**7**7))"]
+    # the operand a size guard looks at, written every other way: negative, computed at run time, a bool, on the other side of the operator
+    for base in ("(-3)", "(2 - 5)", "(-(3))", "(0 - 9)", "(-1 * 7)", "(True - 4)", "(-10)", "abs(-3)", "(1 + 2)", "max(-7, -9)"):
+        for e in ("10**9", "(10**9)", "2**40", "10**10**10", "(3 * 10**8)"):
+            if tier == "thorough" or (len(base) + len(e)) % 3 == 0:
+                out.append("%s ** %s" % (base, e))
+    out += ["'a' * (-1 * -10**10)", "(-1 * -10**9) * [0]", "[0] * (10**9 - 1)", "(True * 10**10) * 'ab'", "factorial(-(-10**7))", "factorial(10**7 - 1)", "factorial(True * 10**7)",
+            "(-2) ** (-(-10**9))", "(-2) ** 10**9 + 1", "1 + (-3) ** 10**9", "[(-3) ** 10**9]", "max((-3) ** 10**9, 1)", "(0 - 2) ** (2 ** 34)"]
     if tier == "thorough":
         for b in (2, 3, 7, 9, 99):
             for e in (9, 20, 99):
